@@ -284,7 +284,7 @@ def check_records(ctx, d, recs, data):
     for (ns, p), (kind, ext, ln) in sorted(recs.items()):
         if ns in ('iso', 'joliet'):
             t = img.trees.get(ns)
-            rec = t.entries.get(p) if t is not None else None
+            rec = t.entries.get(d.model.phys(ns, p)) if t is not None else None
             if rec is None or kind == 'symlink' or rec.parts:
                 continue
             if kind == 'file' and rec.size == 0:
